@@ -462,6 +462,8 @@ def shards(tier, seed):
     for i in range(nsh):
         specs.append(dict(fam="b-edges", rows=nrows, k=i, n=nsh))
     specs.append(dict(fam="b-sites"))
+    specs.append(dict(fam="b-migs"))
+    specs.append(dict(fam="b-nodes"))
     nsh = 40
     for i in range(nsh):
         specs.append(dict(fam="b-muts", rows=2, k=i, n=nsh, alphabet="full"))
@@ -515,6 +517,52 @@ def run_shard(spec):
                 s["sites"] = [(x, "0") for x in combo]
                 judge(s, acc, "b-sites", nontrivial=True)
         acc.sample({"fam": "b-sites", "last": spec_json(s)})
+    elif fam == "b-migs":
+        # every single migration row over full coordinate / reference alphabets (all FIELD COMBINATIONS of one
+        # row, so multi-field departures inside a row are covered), and all pairs of rows over a reduced alphabet
+        base = base_two_trees()
+        base["populations"] = 2
+        L = base["L"]
+        coords = [-1.0, 0.0, 1.0, L, L + 1, math.nan, math.inf]
+        for l in coords:
+            for r in coords:
+                for node in (-1, 0, 3):
+                    for src in (-1, 0, 2):
+                        for dst in (0, 2):
+                            for t in (0.5, math.nan):
+                                s = dict(base)
+                                s["migrations"] = [(l, r, node, src, dst, t)]
+                                judge(s, acc, "b-migs", nontrivial=True)
+        small = [0.0, 1.0, L, L + 1]
+        rows = [(l, r, 0, 0, 1, t) for l in small for r in small for t in (0.25, 0.75)]
+        for a in rows:
+            for b in rows:
+                s = dict(base)
+                s["migrations"] = [a, b]
+                judge(s, acc, "b-migs", nontrivial=True)
+        acc.sample({"fam": "b-migs", "last": spec_json(s)})
+    elif fam == "b-nodes":
+        base = base_two_trees()
+        base["populations"] = 1
+        base["individuals"] = [(0, ())]
+        for t in (0.0, math.nan, math.inf, -math.inf, -1.0):
+            for pop in (-2, -1, 0, 1):
+                for ind in (-2, -1, 0, 1):
+                    for j in (0, 2):
+                        s = dict(base)
+                        nodes = list(base["nodes"])
+                        nodes[j] = (nodes[j][0], t if j == 0 else 1.0 + (0 if t != t else 0), pop, ind)
+                        if j == 2 and t == t and abs(t) != math.inf:
+                            nodes[j] = (nodes[j][0], max(t, 1.0), pop, ind)
+                        elif j == 2:
+                            nodes[j] = (nodes[j][0], t, pop, ind)
+                        s["nodes"] = nodes
+                        judge(s, acc, "b-nodes", nontrivial=True)
+        for parents in itertools.product((-2, -1, 0, 1, 2), repeat=2):
+            s = dict(base)
+            s["individuals"] = [(0, (parents[0],)), (0, (parents[1], -1))]
+            judge(s, acc, "b-nodes", nontrivial=True)
+        acc.sample({"fam": "b-nodes", "last": spec_json(s)})
     elif fam == "b-muts":
         base = base_two_trees()
         base["sites"] = [(0.5, "0"), (1.0, "0")]
